@@ -220,7 +220,7 @@ func (s scen) run(c *hx.Ctx) *hx.ScenarioResult {
 		}
 		sched.Finish()
 	}
-	return hx.ExploreScenario(c, "C09", s.name(), sched.Options{Bound: s.bound, MaxSteps: 100000, BoundAll: true, NoEarlyClock: true}, body, s.judge)
+	return hx.ExploreScenario(c, "C09", s.name(), sched.Options{Bound: s.bound, MaxSteps: 100000, BoundAll: true, NoEarlyClock: true, HoldBack: true}, body, s.judge)
 }
 
 func (s scen) judge(e *sched.Exec) (string, string, *sched.Failure) {
